@@ -338,7 +338,10 @@ def params_digest_ok(p: ParsedInterest) -> bool:
 
 class ParsedLp:
     __slots__ = ('wire', 'els', 'fragment', 'pit_token', 'nack', 'nack_reason', 'frag_index',
-                 'frag_count', 'headers', 'in_order')
+                 'frag_count', 'headers', 'in_order', 'repeated_single')
+
+
+LP_SINGLE_HEADERS = frozenset([0x51, 0x52, 0x53, 0x54, 0x62, 0x0320, 0x032c, 0x0330, 0x0334, 0x0340, 0x0348, 0x034c, 0x0350])
 
 
 def parse_lp(wire) -> ParsedLp:
@@ -369,7 +372,10 @@ def parse_lp(wire) -> ParsedLp:
     p.frag_count = int.from_bytes(wire[fc[2]:fc[3]], 'big') if fc else None
     # NDNLPv2: header fields in increasing order of their type numbers, the Fragment last
     hdr_types = [t for (t, _s, _v, _e) in els if t != T_LP_FRAGMENT]
-    p.in_order = all(a < b for a, b in zip(hdr_types, hdr_types[1:])) and (f is None or els[-1][0] == T_LP_FRAGMENT)
+    p.in_order = all(a <= b for a, b in zip(hdr_types, hdr_types[1:])) and (f is None or els[-1][0] == T_LP_FRAGMENT)
+    # Ack may be repeated, and nothing is said about repeating a header nobody knows; a second Sequence, FragIndex,
+    # PitToken, Nack, ... is neither allowed nor given a meaning
+    p.repeated_single = any(a == b and a in LP_SINGLE_HEADERS for a, b in zip(hdr_types, hdr_types[1:]))
     return p
 
 
